@@ -103,6 +103,12 @@ let run_a ?(multi = false) (live : bool) (ops : string list) : string =
       let content = Hashtbl.find_opt prepared key in
       focus := Some (n_of_dec c, e.s_term, e.s_index);
       do_op (wrap (OSnapReq (n_of_dec c, e.s_term, e.s_index, content)))
+    | ["G"; c; k] ->
+      let ci = int_of_string c in
+      if ci > !maxc then maxc := ci;
+      let e = kth ci (int_of_string k) in
+      focus := Some (n_of_dec c, e.s_term, e.s_index);
+      observe ROk
     | ["K"; c; k] ->
       let ci = int_of_string c in
       if ci > !maxc then maxc := ci;
